@@ -152,6 +152,10 @@ pub fn child_case(c: &J) -> J {
       let n = c["n"].as_u64().unwrap_or(2) as usize;
       let calls = c["calls"].as_u64().unwrap_or(10) as usize;
       let seed = c["seed"].as_u64().unwrap_or(1);
+      // `same`: in every round all threads make the SAME call (invocable and input) at the same moment - a barrier
+      // before every round - so that identical calls overlap (results handed from one call to another, calls
+      // coalesced, per-invocable scratch state)
+      let same = c["same"] == true;
       let barrier = Arc::new(Barrier::new(n));
       let handles: Vec<_> = (0..n)
         .map(|t| {
@@ -161,7 +165,10 @@ pub fn child_case(c: &J) -> J {
             let mut out = vec![];
             barrier.wait();
             for k in 0..calls {
-              let (v, i) = call_of(seed, t, k);
+              let (v, i) = if same { call_of(seed, 0, k) } else { call_of(seed, t, k) };
+              if same {
+                barrier.wait();
+              }
               match rng.below(8) {
                 0 => std::thread::yield_now(),
                 1 => {
@@ -232,7 +239,7 @@ pub fn check(mut ctx: Ctx, replay: Option<J>) -> ! {
   let mut runs: Vec<J> = vec![];
   if let Some(r) = &replay {
     let c = &r["case"]["record"];
-    runs.push(json!({"mode": if c["seed"] == 0 { "seqrev" } else { "run" }, "n": c["n"], "calls": c["calls"], "seed": c["seed"]}));
+    runs.push(json!({"mode": if c["seed"] == 0 { "seqrev" } else { "run" }, "n": c["n"], "calls": c["calls"], "seed": c["seed"], "same": c["same"]}));
   } else {
     runs.push(json!({"mode": "seqrev", "n": 1, "calls": INVOCABLES.len() * INPUTS, "seed": 0}));
     let mut rng = Rng::new(ctx.seed);
@@ -240,6 +247,12 @@ pub fn check(mut ctx: Ctx, replay: Option<J>) -> ! {
     for n in [2u64, 4, 8, 16] {
       for _ in 0..reps {
         runs.push(json!({"mode": "run", "n": n, "calls": if quick { 1000 } else { 4000 }, "seed": rng.next()}));
+      }
+    }
+    // all threads making the same call at the same moment, round after round
+    for n in [3u64, 8, 16] {
+      for _ in 0..(if quick { 1 } else { 6 }) {
+        runs.push(json!({"mode": "run", "n": n, "calls": if quick { 300 } else { 1500 }, "seed": rng.next(), "same": true}));
       }
     }
   }
@@ -251,7 +264,7 @@ pub fn check(mut ctx: Ctx, replay: Option<J>) -> ! {
     let death = if res["thread_panicked"] == true { "a thread panicked".to_string() } else { res["death"].as_str().unwrap_or("").to_string() };
     let events = res["events"].as_array().cloned().unwrap_or_default();
     calls += events.len() as u64;
-    recs.push(json!({"n": run["n"], "calls": run["calls"], "seed": run["seed"], "death": death, "poisoned": res["poisoned"] == true, "events": events}));
+    recs.push(json!({"n": run["n"], "calls": run["calls"], "seed": run["seed"], "same": run["same"] == true, "death": death, "poisoned": res["poisoned"] == true, "events": events}));
   }
   if let (true, Some(healthy)) = (replay.is_none(), recs.iter().find(|r| r["death"] == "" && r["events"].as_array().map_or(0, |a| a.len()) > 4)) {
     // self-test: one changed value and one lost call must be rejected
